@@ -10,7 +10,9 @@
 #  include "c18_more.h"
 #else
 #  include "stir/recon_buildblock/ProjMatrixByBinUsingRayTracing.h"
+#  include "stir/recon_buildblock/ProjMatrixByBinUsingInterpolation.h"
 #  include "stir/recon_buildblock/ProjMatrixElemsForOneBin.h"
+#  include <sstream>
 #  include "stir/Bin.h"
 #endif
 #include <cmath>
@@ -89,11 +91,28 @@ struct Cfg
   bool s90 = true, s180 = true, sseg = true, ss = true, sz = true;
   bool cache = true, basic_only = false;
   int nlors = 1;
+  int kind = 0; // 0: ray tracing, 1: interpolation model
 };
 
-shared_ptr<ProjMatrixByBinUsingRayTracing>
+shared_ptr<ProjMatrixByBin>
 make_matrix(const Cfg& c)
 {
+  if (c.kind == 1)
+    {
+      // this class takes its switches from a parameter text only
+      shared_ptr<ProjMatrixByBinUsingInterpolation> m(new ProjMatrixByBinUsingInterpolation);
+      std::ostringstream t;
+      t << "Interpolation Matrix Parameters :=\n do_symmetry_90degrees_min_phi := " << (int)c.s90
+        << "\n do_symmetry_180degrees_min_phi := " << (int)c.s180 << "\n do_symmetry_swap_segment := " << (int)c.sseg
+        << "\n do_symmetry_swap_s := " << (int)c.ss << "\n do_symmetry_shift_z := " << (int)c.sz
+        << "\nEnd Interpolation Matrix Parameters :=\n";
+      std::istringstream in(t.str());
+      if (!m->parse(in))
+        throw std::runtime_error("harness: parameter text of the interpolation matrix not accepted");
+      m->enable_cache(c.cache);
+      m->store_only_basic_bins_in_cache(c.basic_only);
+      return m;
+    }
   shared_ptr<ProjMatrixByBinUsingRayTracing> m(new ProjMatrixByBinUsingRayTracing);
   m->set_num_tangential_LORs(c.nlors);
   m->set_do_symmetry_90degrees_min_phi(c.s90);
@@ -118,7 +137,7 @@ to_row(ProjMatrixElemsForOneBin& r)
 }
 
 void
-check_wellformed(const Row& row, const Geo& G, const Bin& b, const char* who)
+check_wellformed(const Row& row, const Geo& G, const Bin& b, const char* who, bool interpolation = false)
 {
   CartesianCoordinate3D<int> lo, hi;
   G.image->get_regular_range(lo, hi);
@@ -134,7 +153,7 @@ check_wellformed(const Row& row, const Geo& G, const Bin& b, const char* who)
                   who, b.segment_num(), b.axial_pos_num(), b.view_num(), b.tangential_pos_num(), b.timing_pos_num(), c[0], c[1], c[2], lo[1],
                   hi[1], lo[2], hi[2], lo[3], hi[3]);
       if (c[0] < lo[1] || c[0] > hi[1])
-        sim::fail_soft("row:voxel_outside_image:z", "%s: bin(seg %d, ax %d, view %d, tang %d, tof %d) refers to voxel (%d,%d,%d) whose plane lies outside the image planes [%d..%d]",
+        sim::fail_soft(interpolation ? "row:voxel_outside_image:z:interpolation_matrix" : "row:voxel_outside_image:z", "%s: bin(seg %d, ax %d, view %d, tang %d, tof %d) refers to voxel (%d,%d,%d) whose plane lies outside the image planes [%d..%d]",
                        who, b.segment_num(), b.axial_pos_num(), b.view_num(), b.tangential_pos_num(), b.timing_pos_num(), c[0], c[1], c[2], lo[1],
                        hi[1]);
       if (i > 0 && row[i - 1].first == c)
@@ -268,9 +287,15 @@ run_seq(const Plan& p, sim::Result& res)
   cfg.cache = p.c("cache", 1);
   cfg.basic_only = p.c("basic_only", 0);
   cfg.nlors = (int)p.c("nlors", 1);
+  cfg.kind = (int)p.c("matrix_kind", 0);
+  if (cfg.kind == 1)
+    {
+      cfg.nlors = 1;
+      res.cls = "history_interpolation_matrix";
+    }
   int cur_geo = 0;
   Geo G = make_geo(p, 0);
-  shared_ptr<ProjMatrixByBinUsingRayTracing> H = make_matrix(cfg); // the object with a history
+  shared_ptr<ProjMatrixByBin> H = make_matrix(cfg); // the object with a history
   H->set_up(G.pdi, G.image);
   // hot bins: requests concentrate on a few bins and their symmetry relatives
   sim::Rng hr(sim::mix(p.seed, 55));
@@ -336,11 +361,11 @@ run_seq(const Plan& p, sim::Result& res)
           ProjMatrixElemsForOneBin rh, rf, rr;
           H->get_proj_matrix_elems_for_one_bin(rh, b);
           Row row_h = to_row(rh);
-          check_wellformed(row_h, G, b, "matrix with history");
+          check_wellformed(row_h, G, b, "matrix with history", cfg.kind == 1);
           // (a) fresh object, same configuration, no cache: bitwise
           Cfg cf = cfg;
           cf.cache = false;
-          shared_ptr<ProjMatrixByBinUsingRayTracing> F = make_matrix(cf);
+          shared_ptr<ProjMatrixByBin> F = make_matrix(cf);
           F->set_up(G.pdi, G.image);
           F->get_proj_matrix_elems_for_one_bin(rf, b);
           Row row_f = to_row(rf);
@@ -350,12 +375,18 @@ run_seq(const Plan& p, sim::Result& res)
           cr.s90 = cr.s180 = cr.sseg = cr.ss = cr.sz = false;
           cr.cache = false;
           cr.nlors = cfg.nlors;
-          shared_ptr<ProjMatrixByBinUsingRayTracing> R = make_matrix(cr);
+          cr.kind = cfg.kind;
+          shared_ptr<ProjMatrixByBin> R = make_matrix(cr);
           R->set_up(G.pdi, G.image);
           R->get_proj_matrix_elems_for_one_bin(rr, b);
           Row row_r = to_row(rr);
-          check_wellformed(row_r, G, b, "reference matrix");
-          if (end_point_on_voxel_boundary(G, b, cfg.nlors))
+          check_wellformed(row_r, G, b, "reference matrix", cfg.kind == 1);
+          if (cfg.kind == 1)
+            {
+              compare_rounding(row_h, row_r, b, "interpolation:symmetries");
+              sim::probe("interpolation_rows_compared");
+            }
+          else if (end_point_on_voxel_boundary(G, b, cfg.nlors))
             sim::probe("bins_screened_end_point_on_voxel_boundary");
           else
             compare_rounding(row_h, row_r, b, "symmetries");
@@ -386,11 +417,16 @@ run_seq(const Plan& p, sim::Result& res)
           cfg.sseg = op.arg(0) & 4;
           cfg.ss = op.arg(0) & 8;
           cfg.sz = op.arg(0) & 16;
-          H->set_do_symmetry_90degrees_min_phi(cfg.s90);
-          H->set_do_symmetry_180degrees_min_phi(cfg.s180);
-          H->set_do_symmetry_swap_segment(cfg.sseg);
-          H->set_do_symmetry_swap_s(cfg.ss);
-          H->set_do_symmetry_shift_z(cfg.sz);
+          if (ProjMatrixByBinUsingRayTracing* rt = dynamic_cast<ProjMatrixByBinUsingRayTracing*>(H.get()))
+            {
+              rt->set_do_symmetry_90degrees_min_phi(cfg.s90);
+              rt->set_do_symmetry_180degrees_min_phi(cfg.s180);
+              rt->set_do_symmetry_swap_segment(cfg.sseg);
+              rt->set_do_symmetry_swap_s(cfg.ss);
+              rt->set_do_symmetry_shift_z(cfg.sz);
+            }
+          else
+            H = make_matrix(cfg); // switches come with the parameter text: the documented use is a new parse
           H->set_up(G.pdi, G.image);
           sim::probe("symmetry_toggle_and_set_up");
         }
@@ -458,6 +494,9 @@ gen(uint64_t seed, const std::string& tier, long idx)
   p.cfg["sz"] = r.chance(0.7);
   p.cfg["cache"] = r.chance(0.85);
   p.cfg["basic_only"] = r.chance(0.5);
+  p.cfg["matrix_kind"] = idx % 8 == 7; // one history in eight on the interpolation-model matrix
+  if (p.cfg["matrix_kind"])
+    p.cfg["tof"] = 0;
   const int nops = (int)r.range(2, thorough ? 60 : 30);
   for (int i = 0; i < nops; ++i)
     {
